@@ -2,7 +2,7 @@
 import struct
 
 from bumble import core, l2cap, utils
-from pyvc.contracts import (NATIVE_UF, Any, Bool, Bytes, Callback, Inst, Int, IntRange, ListOf, OneOf, Opt, contract, iff, implies,
+from pyvc.contracts import (NATIVE_UF, Any, Bool, Bytes, Callback, Inst, Int, IntRange, ListOf, OneOf, Opt, contract, forall, iff, implies,
                             ite, lemma, model, at, uf)
 from spec.ertm import l2cap_header, le16, le16_bytes
 
@@ -317,6 +317,38 @@ def su_send_control_k(ghost, frame):
     ghost.ctl = ghost.ctl + 1
     ghost.disc = ghost.disc + (1 if isinstance(frame, l2cap.L2CAP_Disconnection_Request) else 0)
     ghost.rsp = ghost.rsp + (1 if isinstance(frame, l2cap.L2CAP_Configure_Response) else 0)
+    if isinstance(frame, l2cap.L2CAP_Configure_Response):
+        # what the peer is told: the result and the options echoed (the list last handed to the option encoder: the
+        # `options=` argument of this response)
+        ghost.result = frame.result
+        ghost.replied = ghost.enc_arg
+
+
+def su_encode(ghost, options):
+    """recording stub for L2CAP_Control_Frame.encode_configuration_options: remembers the (type, value) list"""
+    ghost.enc_arg = options
+
+
+FCS_T = int(l2cap.L2CAP_Configure_Request.ParameterType.FCS)
+OPTS = ListOf(TupleOf(Int, Bytes))
+# the option decoder as the handler sees it: the decoded list is recorded in the ghost state (so that the handler's
+# postcondition can speak about "the options of this request"); otherwise the verified contract DECODE above
+contract(
+    'bumble.l2cap:L2CAP_Control_Frame.decode_configuration_options',
+    key='bumble.l2cap:L2CAP_Control_Frame.decode_configuration_options@recorded',
+    ghost=dict(decoded=OPTS),
+    **dict(DECODE, ensures=lambda data, res, ghost: [len(res) >= 0, ghost.decoded == res], ensures_names=['total', 'recorded'], modifies=['ghost.decoded']),
+)
+
+
+def no_fcs_option(d, lo):
+    """no option from position lo on is an FCS option"""
+    return forall(lo, len(d), lambda k: d[k][0] != FCS_T)
+
+
+def fcs_requested(d, j):
+    """option j asks for FCS (value octet != 0: 16-bit FCS; 0: no FCS; Core Vol 3 Part A 5.5)"""
+    return d[j][1][0] != 0
 
 
 model(
@@ -324,15 +356,47 @@ model(
     fields=dict(
         state=OneOf(CS.CLOSED, CS.WAIT_CONNECT_RSP, CS.WAIT_CONFIG, CS.WAIT_CONFIG_REQ_RSP, CS.WAIT_CONFIG_RSP, CS.WAIT_CONFIG_REQ, CS.OPEN, CS.WAIT_DISCONNECT),
         connection_result=Opt(Inst('ghost:Future#c08')),
+        fcs_enabled=Bool,
     ),
     methods={'send_control_frame': Callback('send_control_frame', effect=su_send_control_k), 'emit': Callback('emit', effect=su_emit)},
 )
+def cfgreq_fcs_post(self, old, ghost):
+    """value level, FCS option (the other option values stay uninterpreted): what this end uses afterwards is what it
+    told the peer it accepted.  A request is accepted when a response with result SUCCESS is sent; it then echoes every
+    option of the request, and if the request has an FCS option (the last one, at position J, counts) `fcs_enabled` is
+    exactly what that option asks for -- on or off; a request without an FCS option leaves the setting alone"""
+    d = ghost.decoded
+    j = ghost.J
+    accepted = ghost.rsp == old.ghost.rsp + 1 and ghost.result == CR.SUCCESS
+    return [
+        implies(accepted, ghost.replied == d),
+        implies(accepted and 0 <= j and j < len(d) and d[j][0] == FCS_T and no_fcs_option(d, j + 1), self.fcs_enabled == fcs_requested(d, j)),
+        implies(no_fcs_option(d, 0), self.fcs_enabled == old.self.fcs_enabled),
+    ]
+
+
+def cfgreq_inv(self, old, ghost, options, replied_options, result, _i):
+    j = ghost.J
+    return [
+        self.state == old.self.state, ghost.ctl == old.ghost.ctl, ghost.disc == old.ghost.disc, ghost.rsp == old.ghost.rsp, ghost.emits == old.ghost.emits,
+        # inside the loop every option so far has been accepted and echoed
+        ghost.decoded == options,
+        0 <= _i and _i <= len(options),
+        result == CR.SUCCESS,
+        replied_options == options[:_i],
+        # the FCS setting follows the last FCS option seen so far
+        implies(0 <= j and j < _i and options[j][0] == FCS_T and no_fcs_option(options, j + 1), self.fcs_enabled == fcs_requested(options, j)),
+        implies(no_fcs_option(options, 0), self.fcs_enabled == old.self.fcs_enabled),
+    ]
+
+
 contract(
     'bumble.l2cap:ClassicChannel.on_configure_request',
     prop='C08',
     profile='skeleton',
     params=dict(self=Inst('bumble.l2cap:ClassicChannel#cfgreq'), request=Any),
-    ghost=dict(ctl=Int, disc=Int, rsp=Int, emits=Int, emit_last=Any, resolved=Int),
+    # ghost.J: any position in the option list (universally quantified like every ghost input)
+    ghost=dict(ctl=Int, disc=Int, rsp=Int, emits=Int, emit_last=Any, resolved=Int, decoded=OPTS, enc_arg=Any, replied=OPTS, result=Int, J=Int),
     ensures=lambda self, old, ghost: [
         # OPEN is entered only from WAIT_CONFIG_REQ (our own request has been accepted before), with one SUCCESS response sent
         implies(self.state == CS.OPEN and old.self.state != CS.OPEN, old.self.state == CS.WAIT_CONFIG_REQ and ghost.emits == old.ghost.emits + 1 and ghost.disc == old.ghost.disc),
@@ -342,8 +406,9 @@ contract(
         implies(old.self.state != CS.WAIT_CONFIG and old.self.state != CS.WAIT_CONFIG_REQ and old.self.state != CS.WAIT_CONFIG_REQ_RSP, self.state == old.self.state and ghost.ctl == old.ghost.ctl and ghost.emits == old.ghost.emits),
         # at most one configuration response per request
         ghost.rsp <= old.ghost.rsp + 1,
-    ],
-    ensures_names=['opens-only-after-own-request-accepted', 'refused-mode-disconnects', 'ignored-in-other-states', 'one-response'],
+    ] + cfgreq_fcs_post(self, old, ghost),
+    ensures_names=['opens-only-after-own-request-accepted', 'refused-mode-disconnects', 'ignored-in-other-states', 'one-response',
+                   'accepted-options-echoed', 'accepted-fcs-option-is-used', 'fcs-unchanged-without-fcs-option'],
     # malformed option values (an MTU option that is not 2 bytes, a short retransmission option, an empty FCS option:
     # never built by bumble's send_configure_request) make struct / indexing raise: the channel is not opened by such a
     # request; what the caller does with the exception is robustness (C17), not this property
@@ -352,10 +417,11 @@ contract(
         struct.error: lambda self, old, ghost: [self.state != CS.OPEN or old.self.state == CS.OPEN, ghost.emits == old.ghost.emits, ghost.disc == old.ghost.disc],
         IndexError: lambda self, old, ghost: [self.state == old.self.state, ghost.ctl == old.ghost.ctl, ghost.emits == old.ghost.emits],
     },
-    invariants={0: lambda self, old, ghost: [self.state == old.self.state, ghost.ctl == old.ghost.ctl, ghost.disc == old.ghost.disc, ghost.rsp == old.ghost.rsp, ghost.emits == old.ghost.emits]},
+    invariants={0: cfgreq_inv},
     loop_locals={0: {'replied_options': ListOf(TupleOf(Int, Bytes))}},
-    modifies=['self.*', 'ghost.ctl', 'ghost.disc', 'ghost.rsp', 'ghost.emits', 'ghost.emit_last', 'ghost.resolved'],
-    uses=['bumble.l2cap:L2CAP_Control_Frame.decode_configuration_options@callee'],
+    modifies=['self.*', 'ghost.ctl', 'ghost.disc', 'ghost.rsp', 'ghost.emits', 'ghost.emit_last', 'ghost.resolved', 'ghost.decoded', 'ghost.enc_arg', 'ghost.replied', 'ghost.result'],
+    stubs={l2cap.L2CAP_Control_Frame.encode_configuration_options: Callback('encode_configuration_options', effect=su_encode, returns=Bytes)},
+    uses=['bumble.l2cap:L2CAP_Control_Frame.decode_configuration_options@recorded'],
     inline=['ClassicChannel._change_state', 'ClassicChannel._disconnect_sync', 'ClassicChannel._abort_connection_result', 'ClassicChannel.__str__',
             'ClassicChannel.send_configure_request'],
 )
